@@ -55,9 +55,36 @@ def nested_trigger_case(idx, rng, P, rep, prop):
     for k in range(rng.randint(1, 2)):
         o.param.watch(lambda ev, k=k: log.append((f'after{k}', ev.name, ev.type)), 'a', onlychanged=rng.random() < 0.5, precedence=2)
     o.param.watch(lambda ev: log.append(('inner', ev.name, ev.type)), inner, onlychanged=rng.random() < 0.5)
+    # a later watcher of the OUTER trigger assigns the parameter the inner trigger named (the inner call is over by then):
+    # an ordinary assignment again - an equal value is skipped by a changes-only watcher, a new value is typed 'changed'
+    later = []
+    assign_later = inner == 'b' and rng.random() < 0.6
+
+    def last(ev):
+        log.append(('last', ev.name, ev.type))
+        if assign_later and not later:
+            later.append('equal')
+            o.b = o.b
+            later.append('new')
+            o.b = ('new', idx)
+    o.param.watch(last, 'a', onlychanged=False, precedence=3)
+    plain_log = []
+    if assign_later:
+        o.param.watch(lambda ev: plain_log.append((later[-1] if later else 'inner-trigger', ev.type)), 'b', onlychanged=True, precedence=5)
     o.param.trigger('a')
     rep.count('nested_trigger_cases')
     rep.count('deliveries', len(log))
+    if assign_later:
+        rep.count('assignments_after_nested_trigger')
+        got = [x for x in plain_log if x[0] in ('equal', 'new')]
+        if got != [('new', 'changed')]:
+            rep.violation(f'{prop}/event-type/assignment-after-trigger-inside-trigger-callback', f'after the inner trigger(b) returned, a later '
+                          f'watcher of the outer trigger(a) assigned b an equal and then a new value; the changes-only watcher of b saw {got}, '
+                          f"expected [('new', 'changed')]", case=dict(inner=inner))
+    if assign_later:
+        # the watcher of b also sees the two later plain assignments: only its first call belongs to the inner trigger
+        first_inner = next((i for i, x in enumerate(log) if x[0] == 'inner'), None)
+        log[:] = [x for i, x in enumerate(log) if x[0] != 'inner' or i == first_inner]
     wrong = [x for x in log if x[2] != 'triggered']
     names = [x[0] for x in log]
     if wrong:
